@@ -390,7 +390,14 @@ func C06Scenarios(tier string) []*Scenario {
 		depth = 3
 	}
 	out := MapFuncScenarios()
-	n := 0
+	n := 70000
+	// custom functions of a method classify their parameters with the context expression in effect for that method
+	for _, sc := range ctxRegexFuncScenarios(&n, "C06") {
+		if len(sc.Global) == 0 {
+			out = append(out, sc)
+		}
+	}
+	n = 0
 	for _, form := range c06Forms {
 		for _, path := range nestPaths(depth) {
 			n++
